@@ -668,6 +668,10 @@ class Renderer:
         if k in ("neg",) or (k == "int" and n["v"] < 0) or (k == "flt" and n["n"] < 0):
             return [pad + "(" + self.expr(n) + ")"]
         if k == "asg" and self.is_inline(n["e"]) and n["e"]["k"] in ("app", "core", "mcall", "bin", "list"):
+            if self.L.chains and self.L.rng is not None and n["e"]["k"] in ("mcall", "app", "core") and self.L.pick(4, 0.75):
+                # the value on the line after `=` (a line ending in `=` asks for more input), itself possibly broken further
+                pad1 = self.ind * (depth + 1)
+                return (pad + n["n"] + " =\n" + CONT + pad1 + self.expr_ml(n["e"], depth + 1, force=True)).split("\n")
             return (pad + n["n"] + " = " + self.expr_ml(n["e"], depth)).split("\n")
         if k in ("app", "core", "mcall") and self.is_inline(n):
             return (pad + self.expr_ml(n, depth)).split("\n")
@@ -706,15 +710,15 @@ class Renderer:
             return "%s -> %s%s" % (args[0], n["f"]["n"], (" " + rest) if rest else "")
         return "%s %s" % (n["f"]["n"], ", ".join(args))
 
-    def expr_ml(self, n, depth):
+    def expr_ml(self, n, depth, force=False):
         """Render the top node of a simple statement, possibly over several lines (guide: arguments, lists and
         binary expressions may be broken across indented lines). Continuation lines carry the marker CONT."""
-        if self.L.rng is None or self.L.pick(3, 0.55) == 0:
+        if self.L.rng is None or (self.L.pick(3, 0.55) == 0 and not force):
             return self.expr(n)
         k = n["k"]
         pad1 = self.ind * (depth + 1)
         pad0 = self.ind * depth
-        if k == "mcall" and n["c"]["k"] == "mcall" and self.L.chains and self.L.pick(2, 0.6) == 0:
+        if k == "mcall" and n["c"]["k"] == "mcall" and self.L.chains and (self.L.pick(2, 0.6) == 0 or force):
             # guide (Iterators, Function Piping): a call chain broken across indented lines, one call per line, calls
             # without parentheses where the arguments allow it (an inline function last); optionally the whole chain
             # inside redundant parentheses
